@@ -222,8 +222,41 @@ def run_set(s, stage_dir, tier):
             results += r
         res["cmds"].append(" ".join(cmd[:2] + cmd[2:8]).replace(stage_dir, "<stage>") + " --property <each, %d chunks>" % len(outs))
     else:
-        cmd, rc, out, err, dt = run_cbmc(s, gb, wdir, tier)
+        # Properties already listed as known findings for this set fail "fatally" and would leave everything behind them
+        # UNKNOWN: select them in a run of their own and everything else in the main run.
+        kn = [k for k in load_known()[0] if k["set"] == s["id"]]
+        first_extra, known_names = None, []
+        if kn:
+            cmdp, rcp, outp, errp, dtp = run_cbmc(s, gb, wdir, tier, ["--show-properties"], 300)
+            try:
+                for o in json.loads(outp):
+                    if isinstance(o, dict) and "properties" in o:
+                        allp = o["properties"]
+                        for pz in allp:
+                            kstr = "%s|%s|%s" % (pz.get("sourceLocation", {}).get("function", ""), re.sub(r"\.\d+$", "", pz["name"]), re.sub(r"\s+", " ", pz.get("description", "")))
+                            if any(k["key"] in kstr for k in kn):
+                                known_names.append(pz["name"])
+                        if known_names:
+                            first_extra = []
+                            for pz in allp:
+                                if pz["name"] not in known_names:
+                                    first_extra += ["--property", pz["name"]]
+            except Exception:
+                first_extra, known_names = None, []
+        cmd, rc, out, err, dt = run_cbmc(s, gb, wdir, tier, first_extra)
         res["solver_time_s"] = dt
+        if known_names:
+            ex2 = []
+            for n in known_names:
+                ex2 += ["--property", n]
+            cmdk, rck, outk, errk, dtk = run_cbmc(s, gb, wdir, tier, ex2)
+            res["solver_time_s"] += dtk
+            rk, _mk = parse_cbmc_json(outk)
+            r1, _m1 = parse_cbmc_json(out)
+            if rk is not None and r1 is not None:
+                out = json.dumps([{"result": r1 + rk}])
+            cmd = cmd[:2] + [c for c in cmd[2:] if not c.startswith("--property") and c not in [x for x in (first_extra or [])]]
+            res["cmds"].append("(properties listed as known findings are selected in a second run: %d)" % len(known_names))
         res["cmds"].append(" ".join(cmd).replace(stage_dir, "<stage>"))
         results, msgs = parse_cbmc_json(out)
         if results is None:
